@@ -10,7 +10,7 @@
 2. S->C: the exported scenarios carry the expected dictionaries computed by the specification;
    the real Grad, Jac (every chunk size None,1,2,3,4), Composition of two Jac, Init, Select,
    Diagonalize, Stack, Aggregate are applied to real tensors under the shapes of the spec's
-   ShapeMenu (0-d .. 4-d, size-1 dims; all combinations in the thorough tier), float64 and
+   ShapeMenu (0-d .. 4-d, size-1 dims; up to 24 combinations per scenario in the thorough tier), float64 and
    float32, shuffled dictionary insertion orders; outputs compared with EQUALITY.
 3. C->S: random larger programs / dictionaries are run through the real transforms, logged, and
    validated by TLC (TraceTransformValues.tla) which recomputes the expected values.
@@ -118,7 +118,7 @@ def run(ctx: Ctx, replay: str | None) -> None:
     if quick:
         cmod, vmod = 12, 4
     else:
-        cmod, vmod = 24, 1
+        cmod, vmod = 36, 1
         cfg = (cfg.replace("MaxIns = 2", "MaxIns = 3").replace("Thin = TRUE", "Thin = FALSE")
                .replace("LeafIdx = {1, 2, 4, 5}", "LeafIdx = {1, 2, 3, 4, 5, 6}"))
     cfg = (cfg.replace("SampleMod = 5", f"SampleMod = {cmod}").replace("SamplePick = 0", f"SamplePick = {ctx.seed % cmod}")
@@ -163,7 +163,7 @@ def run(ctx: Ctx, replay: str | None) -> None:
     ctx.count("calls_with_chain_through_intermediates", sum(1 for c in calls if c["cuts"]))
     ctx.count("calls_with_unreachable_input", sum(1 for c in calls if c["unreachable"]))
 
-    limit = 4 if quick else None
+    limit = 4 if quick else 24      # shape combinations per scenario (all of them when there are fewer)
     items = [(v, menu, ctx.seed, i, limit, dts(i)) for i, v in enumerate(vals)]
     for (v, _, _, i, _, _), r in zip(items, pmap(H.replay_value, items, chunksize=16)):
         ctx.evaluations += r["evals"]
